@@ -117,6 +117,8 @@ func c10FixedScenarios(r *lib.Rng) []*c10Scenario {
 		nw.Put(lib.Entry{Path: "e", Kind: "file"})
 		nw.Put(lib.Entry{Path: "f", Kind: "file", Data: []byte("ten bytes!")})
 		nw.Put(lib.Entry{Path: "g", Kind: "file"})
+		old.Put(lib.Entry{Path: "h", Kind: "file", Data: []byte("1")})
+		nw.Put(lib.Entry{Path: "h", Kind: "file", Data: []byte("22")})
 		mk("empties", old, nw)
 	}
 	return out
@@ -538,6 +540,8 @@ type c10Plan struct {
 	TruncAt  int        // byte-level truncation offset, -1 = none
 	Tail     string     // model view of a byte-level truncation: "" (frame aligned) or "B" (inside a frame); "-" = not modelled
 	NFrames  int        // byte-level truncation: number of complete frames before the cut
+	HasWL    bool
+	WL       []int64
 	Job      *c10Job
 	Corpus   bool
 	sc       *c10Scenario
@@ -557,23 +561,23 @@ func c10Shuffle(r *lib.Rng, n int) []int {
 
 // c10FrameEnds returns, for an UNCOMPRESSED encoding of s, the byte offset where the framed
 // messages start and the end offset of each frame.
-func c10FrameEnds(s *c10Stream) (start int, ends []int, err error) {
+func c10FrameEnds(s *c10Stream) (start int, ends []int, bodies []int, err error) {
 	full, err := c10Encode(s, c10Framings[0])
 	if err != nil {
-		return 0, nil, err
+		return 0, nil, nil, err
 	}
 	t := s.clone()
 	t.Msgs = nil
 	head, err := c10Encode(t, c10Framings[0])
 	if err != nil {
-		return 0, nil, err
+		return 0, nil, nil, err
 	}
 	start = len(head)
 	pos := start
 	for _, m := range s.Msgs {
 		b, err := proto.Marshal(m)
 		if err != nil {
-			return 0, nil, err
+			return 0, nil, nil, err
 		}
 		var lenbuf [10]byte
 		n := 0
@@ -589,11 +593,12 @@ func c10FrameEnds(s *c10Stream) (start int, ends []int, err error) {
 		}
 		pos += n + len(b)
 		ends = append(ends, pos)
+		bodies = append(bodies, len(b))
 	}
 	if pos != len(full) {
-		return 0, nil, fmt.Errorf("C10: frame accounting %d != %d", pos, len(full))
+		return 0, nil, nil, fmt.Errorf("C10: frame accounting %d != %d", pos, len(full))
 	}
-	return start, ends, nil
+	return start, ends, bodies, nil
 }
 
 func (p *c10Plan) feederJob() *c10Job {
@@ -601,6 +606,7 @@ func (p *c10Plan) feederJob() *c10Job {
 	switch p.Feeder {
 	case c10FPatFresh, c10FPatOverlay:
 		j.Old = p.sc.OldDir
+		j.HasWL, j.WL = p.HasWL, p.WL
 	case c10FRediff:
 		j.Old, j.New = p.sc.OldDir, p.sc.NewDir
 	case c10FOverlay:
@@ -612,7 +618,7 @@ func (p *c10Plan) feederJob() *c10Job {
 func runC10(c *Ctx) error {
 	r := c.Rng.Fork()
 	scs := c10FixedScenarios(r.Fork())
-	nRand := c.N(2, 8)
+	nRand := c.N(2, 5)
 	for i := 0; i < nRand; i++ {
 		cr := r.Fork()
 		old, nw, rel := lib.GenPair(cr, lib.PairOpts{MaxFiles: 4, MaxSize: 3 * lib.BS, Links: true})
@@ -645,7 +651,7 @@ func runC10(c *Ctx) error {
 	c10Corpus(scs, addPlan)
 
 	// --- field-level mutations ---
-	perBase := c.N(40, 600)
+	perBase := c.N(40, 250)
 	for _, sc := range scs {
 		type baseT struct {
 			name string
@@ -669,10 +675,19 @@ func runC10(c *Ctx) error {
 				for _, fd := range c10FeedersFor(b.name, cr, true) {
 					addPlan(&c10Plan{Scenario: sc.Name, Base: b.name, Class: "valid", Desc: "unmutated", Framing: fr, Feeder: fd, Stream: b.s.clone(), TruncAt: -1, sc: sc})
 				}
+				if b.name == "plain" || b.name == "opt" {
+					wl := []int64{}
+					for i := range b.s.SC.Files {
+						if cr.Bool() {
+							wl = append(wl, int64(i))
+						}
+					}
+					addPlan(&c10Plan{Scenario: sc.Name, Base: b.name, Class: "valid", Desc: fmt.Sprintf("unmutated [whitelist %v]", wl), Framing: fr, Feeder: c10FPatFresh, Stream: b.s.clone(), TruncAt: -1, sc: sc, HasWL: true, WL: wl})
+				}
 			}
 			order := c10Shuffle(cr, len(b.muts))
 			// keep every mutation class represented: stable-sort the shuffled order round-robin by class
-			order = c10RoundRobin(order, func(i int) string { return b.muts[i].Class })
+			order = c10RoundRobin(cr, order, func(i int) string { return b.muts[i].Class })
 			budget := perBase
 			if b.name == "sig" || b.name == "ovl" {
 				budget = perBase / 2
@@ -714,7 +729,22 @@ func runC10(c *Ctx) error {
 					fr = c10Framings[0]
 				}
 				for _, fd := range c10FeedersFor(b.name, cr, false) {
-					addPlan(&c10Plan{Scenario: sc.Name, Base: b.name, Class: cls, Desc: desc, Framing: fr, Feeder: fd, Stream: s, TruncAt: -1, sc: sc})
+					p := &c10Plan{Scenario: sc.Name, Base: b.name, Class: cls, Desc: desc, Framing: fr, Feeder: fd, Stream: s, TruncAt: -1, sc: sc}
+					if (fd == c10FPatFresh || fd == c10FPatOverlay) && cr.Chance(1, 4) {
+						// partial application: only whitelisted files are patched, the others' series are skipped
+						p.HasWL = true
+						p.WL = []int64{}
+						for i := range s.SC.Files {
+							if cr.Bool() {
+								p.WL = append(p.WL, int64(i))
+							}
+						}
+						if cr.Chance(1, 5) {
+							p.WL = append(p.WL, int64(len(s.SC.Files))+3)
+						}
+						p.Desc += fmt.Sprintf(" [whitelist %v]", p.WL)
+					}
+					addPlan(p)
 				}
 			}
 		}
@@ -741,14 +771,14 @@ func runC10(c *Ctx) error {
 					return err
 				}
 				var start int
-				var ends []int
+				var ends, bodies []int
 				if fr.Algo == pwr.CompressionAlgorithm_NONE {
-					if start, ends, err = c10FrameEnds(b.s); err != nil {
+					if start, ends, bodies, err = c10FrameEnds(b.s); err != nil {
 						return err
 					}
 				}
 				offs := map[int]bool{}
-				every := c.N(260, 1500)
+				every := c.N(260, 500)
 				if sc.Name != "tiny" && !c.Thorough() {
 					every = 0
 				}
@@ -773,7 +803,7 @@ func runC10(c *Ctx) error {
 							}
 						}
 					}
-					for k := 0; k < c.N(8, 300); k++ {
+					for k := 0; k < c.N(8, 60); k++ {
 						offs[cr.Intn(len(full))] = true
 					}
 				}
@@ -782,7 +812,7 @@ func runC10(c *Ctx) error {
 					sorted = append(sorted, o)
 				}
 				sort.Ints(sorted)
-				if max := c.N(260, 2500); len(sorted) > max { // thin out evenly, keep the ends
+				if max := c.N(260, 500); len(sorted) > max { // thin out evenly, keep the ends
 					var t []int
 					for k := 0; k < max; k++ {
 						t = append(t, sorted[k*len(sorted)/max])
@@ -790,6 +820,9 @@ func runC10(c *Ctx) error {
 					sorted = t
 				}
 				for _, o := range sorted {
+					if fr.Algo != pwr.CompressionAlgorithm_NONE && !c.Thorough() && len(full) <= every && o%2 == 1 && o > 16 && o < len(full)-8 {
+						continue // compressed framing, quick tier: every other offset
+					}
 					feeders := c10FeedersFor(b.name, cr, false)
 					for _, fd := range feeders {
 						p := &c10Plan{Scenario: sc.Name, Base: b.name, Class: "trunc/" + b.name, Desc: fmt.Sprintf("truncated at byte %d of %d", o, len(full)), Framing: fr, Feeder: fd,
@@ -802,6 +835,11 @@ func runC10(c *Ctx) error {
 							p.NFrames = n
 							p.Tail = "B"
 							if o == start || (n > 0 && ends[n-1] == o) {
+								p.Tail = ""
+							}
+							// a cut right behind the length prefix of a non-empty frame: io.ReadFull reads
+							// nothing and reports a clean io.EOF (not ErrUnexpectedEOF)
+							if n < len(ends) && bodies[n] > 0 && o == ends[n]-bodies[n] {
 								p.Tail = ""
 							}
 						}
@@ -829,7 +867,9 @@ func runC10(c *Ctx) error {
 	return nil
 }
 
-func c10RoundRobin(order []int, key func(int) string) []int {
+// c10RoundRobin reorders a shuffled index list so that the mutation classes take turns (in an
+// order drawn per base stream): a small budget still meets every class over a few scenarios.
+func c10RoundRobin(r *lib.Rng, order []int, key func(int) string) []int {
 	buckets := map[string][]int{}
 	var keys []string
 	for _, i := range order {
@@ -840,6 +880,12 @@ func c10RoundRobin(order []int, key func(int) string) []int {
 		buckets[k] = append(buckets[k], i)
 	}
 	sort.Strings(keys)
+	perm := c10Shuffle(r, len(keys))
+	shuffled := make([]string, len(keys))
+	for i, j := range perm {
+		shuffled[i] = keys[j]
+	}
+	keys = shuffled
 	var out []int
 	for len(out) < len(order) {
 		for _, k := range keys {
